@@ -227,6 +227,22 @@ Proof.
   intros m'. exact (bare_rule_dimensionless sub r E m b m').
 Qed.
 
+(** histories on ONE measurement object: reading value / error / rel, or converting what they
+    returned, never changes what is reported later; after an in-place conversion the accessors
+    report what the out-of-place conversion of the untouched measurement reports (hence, by
+    [C19_convert_fresh], the converted value, |slope|·σ and the new units); a refused in-place
+    conversion changes nothing *)
+Theorem C19_history_independent r E m ops pre post dst m' :
+  mrun r m ops = mrun r m (only_ito ops)
+  ∧ (Forall (λ o, is_ito o = false) ops → mrun r m ops = m)
+  ∧ (Forall (λ o, is_ito o = false) pre → Forall (λ o, is_ito o = false) post →
+     meas_to r m dst = Ok m' → observe E (mrun r m (pre ++ OIto dst :: post)) = observe E m')
+  ∧ (∀ e, meas_to r m dst = Err e → mrun r m [OIto dst] = m).
+Proof.
+  split; [exact (mrun_reads_transparent r ops m)|]. split; [exact (mrun_no_ito r m ops)|].
+  split; [exact (mrun_read_ito_read r E m pre post dst m') | exact (mrun_refused_ito r m dst)].
+Qed.
+
 (** F73 (known finding): the Measurement class ([blind = true]) applies the multiplicative
     rules to offset units, where the Quantity class refuses *)
 Theorem C19_unit_rules_offset_refuted :
